@@ -232,6 +232,31 @@ def _enclosing_for(at, f, name):
     return None
 
 
+def _const_names(f, e, at):
+    """the strings an expression can be: a literal, or the variable of an enclosing loop over a constant tuple of strings
+    (inline, or a module-level name bound once to one).  None when not determined."""
+    s = A.const_str(e)
+    if s is not None:
+        return [s]
+    if isinstance(e, ast.Name) and at is not None:
+        p = getattr(at, '_parent', None)
+        while p is not None and p is not f.node:
+            if isinstance(p, ast.For) and isinstance(p.target, ast.Name) and p.target.id == e.id:
+                it = p.iter
+                if isinstance(it, ast.Name):
+                    binds = f.module.bindings.get(it.id, [])
+                    if len(binds) != 1 or any(isinstance(x, ast.Name) and x.id == it.id and isinstance(x.ctx, ast.Store)
+                                              for x in walk_function(f.node)):
+                        return None
+                    it = binds[0]
+                v = A.const_value(it)
+                if isinstance(v, (tuple, list)) and v and all(isinstance(x, str) for x in v):
+                    return list(v)
+                return None
+            p = getattr(p, '_parent', None)
+    return None
+
+
 def _value_classes_1(repo, f, expr, at=None, depth=0):
     """classes an expression may denote inside function f (None: undetermined; raises DynamicTargets when the value is
     computed from names at run time).  Follows loop variables to the elements of what they iterate over, locals to their
@@ -255,6 +280,22 @@ def _value_classes_1(repo, f, expr, at=None, depth=0):
             out += [x for x in r if x not in out]
         return out
     if isinstance(expr, (ast.ListComp, ast.GeneratorExp, ast.SetComp)):
+        raise DynamicTargets(norm(expr)[:80])
+    if isinstance(expr, ast.Call) and norm(expr.func) == 'getattr' and len(expr.args) == 2 and not expr.keywords:
+        # getattr(<module or class of the package>, <name>) with the name a literal or the variable of a loop over a constant
+        # tuple of names is the fixed set of attributes it spells
+        names = _const_names(f, expr.args[1], at)
+        if names is not None:
+            out = []
+            for nm in names:
+                r = repo.resolve_expr(m, ast.Attribute(value=expr.args[0], attr=nm, ctx=ast.Load())) if nm.isidentifier() else None
+                if r is None or r.kind != 'class':
+                    out = None
+                    break
+                if r.obj not in out:
+                    out.append(r.obj)
+            if out is not None:
+                return out
         raise DynamicTargets(norm(expr)[:80])
     if isinstance(expr, ast.Call) and norm(expr.func) in ('getattr', 'globals', 'vars', 'eval'):
         raise DynamicTargets(norm(expr)[:80])
